@@ -206,8 +206,12 @@ Theorem C02_blank_text_map_key_refused : forall words pu f e mn mx u vs mn' mx' 
 Proof. exact blank_text_map_key_refused. Qed.
 Print Assumptions C02_blank_text_map_key_refused.
 
-(* blank = made of TrimSpace's ASCII white-space characters only (both directions) *)
-Theorem C02_blank_text_iff_all_space : forall s, blank_text s <-> forallb is_trim_space (chars s) = true.
+(* blank = a sequence of white-space characters of strings.TrimSpace (both directions): each piece is ONE character of
+   unicode.IsSpace in UTF-8 - one of the six ASCII ones (\t \n \v \f \r space) or C2 85, C2 A0, E1 9A 80, E2 80 80..8A,
+   E2 80 A8, E2 80 A9, E2 80 AF, E2 81 9F, E3 80 80 (Base/Str.v is_uspace_enc).  Before work package s8u the model trimmed
+   ASCII white space only and this read  forallb is_trim_space (chars s) = true  - false of the SDK on e.g. NBSP. *)
+Theorem C02_blank_text_iff_all_space : forall s,
+  blank_text s <-> exists rs, Forall (fun r => is_uspace_enc r = true) rs /\ chars s = List.concat rs.
 Proof. intro s. split; [exact (blank_all_space s) | exact (all_space_blank s)]. Qed.
 Print Assumptions C02_blank_text_iff_all_space.
 
@@ -219,5 +223,20 @@ Example C02_blank_text_instance :
   is_err (c02_unser 1 c02_env (SInt None None None) (VStr TStr " 0 ")) = true.
 Proof.
   split; [vm_compute; reflexivity|]. split; [vm_compute; discriminate|].
+  vm_compute. repeat split; reflexivity.
+Qed.
+
+(* Unicode white space: an OUTER no-break space / NEL / U+3000 is trimmed (NBSP 5m NBSP = 300 seconds), the text made of
+   them only is blank and refused; an INNER one (between count and unit) and a lone byte A0 (invalid UTF-8) are refused *)
+Example C02_blank_text_unicode_instance :
+  blank_text (bytes_str [194; 160]%Z) /\ blank_text (bytes_str [227; 128; 128; 194; 133]%Z) /\ ~ blank_text (bytes_str [160]%Z) /\
+  is_err (c02_unser 1 c02_env (SInt None None (Some unit_duration_seconds)) (VStr TStr (bytes_str [194; 160]%Z))) = true /\
+  c02_unser 1 c02_env (SInt None None (Some unit_duration_seconds)) (VStr TStr (bytes_str [194; 160; 53; 109; 194; 160]%Z)) = Ok (vi64 300) /\
+  c02_unser 1 c02_env (SInt None None (Some unit_duration_seconds)) (VStr TStr (bytes_str [227; 128; 128; 53; 11]%Z)) = Ok (vi64 5) /\
+  is_err (c02_unser 1 c02_env (SInt None None (Some unit_duration_seconds)) (VStr TStr (bytes_str [53; 194; 160; 109]%Z))) = true /\
+  is_err (c02_unser 1 c02_env (SInt None None (Some unit_duration_seconds)) (VStr TStr (bytes_str [53; 11; 109]%Z))) = true /\
+  is_err (c02_unser 1 c02_env (SInt None None (Some unit_duration_seconds)) (VStr TStr (bytes_str [160; 53]%Z))) = true.
+Proof.
+  split; [vm_compute; reflexivity|]. split; [vm_compute; reflexivity|]. split; [vm_compute; discriminate|].
   vm_compute. repeat split; reflexivity.
 Qed.
